@@ -2,6 +2,8 @@
 // License, v. 2.0. If a copy of the MPL was not distributed with this
 // file, You can obtain one at https://mozilla.org/MPL/2.0/.
 
+#![allow(unexpected_cfgs)]
+
 use clap::{Arg, ArgAction, Command};
 use eyre::{Result, WrapErr};
 use rink_sandbox::Alloc;
